@@ -66,8 +66,13 @@ theorem C09_consts : C09.NewRoutingTable_defaultTTL = 30000000000 ∧ tunnel.Nod
 
 /-! ## Keys: independence across ids and across the two key families -/
 
-/-- Different tunnel ids never share a storage key (for all strings, incl. empty, unicode, ids that
-look like keys). -/
+/-- Different tunnel ids never share a storage key (for all strings, incl. empty, unicode, ids of any
+length, ids that look like keys).  `C09.makeKey` here is `Gen.C09.makeKey`, the definition the
+extractor translates from the body of `RoutingTable.makeKey` on every run: the translation accepts
+only a concatenation of literals and the id, so a key function that truncates, hashes, folds case or
+normalises makes GEN fail loudly (and a changed concatenation re-checks this proof); the harness's
+id families (shared prefixes up to 4096 bytes, differing at every position class) make the same
+collision observable on the real code. -/
 theorem C09_tunnel_keys_injective (a b : String) : C09.makeKey a = C09.makeKey b ↔ a = b :=
   ⟨makeKey_inj, fun h => by rw [h]⟩
 
